@@ -18,5 +18,5 @@ def generate(G):
     once("squarechain3", "SquareChain3", 1, "quick", "self-products depth 3 (8 paths)", d=(1,))
     once("squarechain5", "SquareChain5", 1, "quick", "self-products depth 5 (32 paths)", d=(1,), heavy=True)
     once("squarechain6", "SquareChain6", 1, "thorough", "self-products depth 6 (64 paths)", d=(1,), heavy=True)
-    once("fanout3", "FanOut3", 2, "quick", "x consumed by three nodes that are then combined")
+    once("fanout3", "FanOut3", 2, "thorough", "x consumed by three nodes that are then combined")
     once("diamond", "Diamond", 2, "quick", "a * ((a*b) + a)")
